@@ -69,6 +69,10 @@ def shard(ctx):
         for k, p, c in bf.VECTORS:
             pl = b"".join(struct.pack("<I", x) for x in struct.unpack(">II", bytes.fromhex(p)))
             cases.append((bytes.fromhex(k), pl, "vector:" + c))
+    small = P.get("small")
+    seq_cases(ctx, rng, 1, 1, 3 if small else 12, 6 if small else 30, 64 if small else 600)
+    if P.get("threads", 4) > 1:
+        seq_cases(ctx, rng, P.get("threads", 4), P.get("reps", 40), 1 if small else 3, 6 if small else 16, 200 if small else 4100)
     cases = [c if len(c) == 4 else c + (False,) for c in cases]
     inp = ctx.write("bf.in", ("\n".join(("=" if same else k.hex()) + " " + m.hex() for k, m, _, same in cases) + "\n").encode())
     out = ctx.path("bf.out")
@@ -102,6 +106,65 @@ def shard(ctx):
             cl = b"".join(struct.pack("<I", x) for x in struct.unpack(">II", c))
             if e != cl:
                 ctx.violation("blowfish", dict(sub="published_vector"), dict(key=key.hex(), got=e.hex(), expected=cl.hex()), files=[inp])
+
+
+def seq_cases(ctx, rng, threads, reps, nblocks, nops, maxlen):
+    """operation histories on one cipher object (bf.seq): E and D in any order, the same argument through both directions, results
+    fed back in as arguments, immediate repeats; with threads > 1 the operations of a block are dealt to threads that share the
+    object. Every single result is compared with the reference, whatever came before it or runs beside it."""
+    blocks = []
+    for _ in range(nblocks):
+        kl = rng.choice([8, 8, 12, 16, 56, rng.randint(8, 56)])
+        key = rng.randbytes(kl)
+        ref = bf.BF(key[:8])
+        ops = []
+        pool = []
+        for _ in range(nops):
+            k = rng.random()
+            if pool and k < 0.45:
+                m = rng.choice(pool)          # an argument or a result seen before on this object
+            else:
+                n = rng.choice([0, 1, 7, 8, 9, 16, 64, rng.randint(0, maxlen), (rng.randint(0, maxlen) // 8) * 8, maxlen - 3])
+                m = rng.randbytes(max(0, n))
+            enc = rng.random() < 0.5
+            if ops and rng.random() < 0.25:
+                m = ops[-1][1]                  # same argument as the previous operation ...
+                enc = (not ops[-1][0]) if rng.random() < 0.7 else ops[-1][0]   # ... usually through the other direction
+            exp = _enc(ref, m)[0] if enc else _dec(ref, m)
+            ops.append((enc, m, exp))
+            pool += [m, exp]
+        blocks.append((key, ops))
+    text = "".join("K %s\n" % k.hex() + "".join("%s %s\n" % ("E" if e else "D", m.hex()) for e, m, _ in ops) for k, ops in blocks)
+    inp = ctx.write("bfseq.in", text.encode())
+    out = ctx.path("bfseq.out")
+    sz = os.path.getsize(inp)
+    rec = ctx.call("bf.seq", inp, out, threads, reps, input_bytes=sz * max(1, reps))
+    ctx.check_mon(rec, sz * max(1, reps), files=[inp], residual=(threads == 1))
+    if not rec.ok:
+        return
+    lines = ctx.read("bfseq.out").decode().split("\n")
+    flat = [(k, o) for k, ops in blocks for o in ops]
+    label = "threads:%d" % threads if threads > 1 else "history-one-object"
+    prev = None
+    for (key, (enc, m, exp)), l in zip(flat, lines):
+        rel = "first" if prev is None or prev[0] is not key else ("same-arg-other-direction" if prev[1][1] == m and prev[1][0] != enc else "same-arg-same-direction" if prev[1][1] == m else "other-arg")
+        prev = (key, (enc, m, exp))
+        ctx.case(digest("seq", key, enc, m, threads), len(m) >= 1, [label, "seq-op:%s" % ("E" if enc else "D"), "seq-prev:%s" % rel, "msgmod8:%d" % (len(m) % 8)],
+                 sample=dict(key=key.hex(), op="E" if enc else "D", msg=m.hex()[:64], threads=threads))
+        if l != "h" + exp.hex():
+            ctx.violation("blowfish", dict(sub="history_result" if threads == 1 else "shared_object_result", op="E" if enc else "D", prev=rel if threads == 1 else "concurrent"),
+                          dict(key=key.hex(), op="E" if enc else "D", msg=m.hex()[:400], got=l[:400], expected=exp.hex()[:400], threads=threads, reps=reps), files=[inp],
+                          commands=[dict(verb="bf.seq", args=[inp, out, str(threads), str(reps)])])
+
+
+def _dec(b, msg):
+    pm = msg + b"\0" * ((-len(msg)) % 8)
+    out = bytearray()
+    for i in range(0, len(pm), 8):
+        l, r = struct.unpack_from("<II", pm, i)
+        l, r = b.dec(l, r)
+        out += struct.pack("<II", l, r)
+    return bytes(out)
 
 
 def _enc(b, msg):
